@@ -1,6 +1,7 @@
 package fam
 
 import (
+	"cosmossdk.io/math"
 	"fmt"
 	"sort"
 	"strings"
@@ -10,6 +11,7 @@ import (
 	orbiter "github.com/noble-assets/orbiter/v2"
 	dispatchercomp "github.com/noble-assets/orbiter/v2/keeper/component/dispatcher"
 	dispatchertypes "github.com/noble-assets/orbiter/v2/types/component/dispatcher"
+	"github.com/noble-assets/orbiter/v2/types/core"
 
 	"verif/harness/internal/cq"
 	"verif/harness/internal/rng"
@@ -56,6 +58,25 @@ func Pages(r *rng.R, n int) Result {
 			extra := genValidishDoc(cr)
 			g.DispatcherGenesis.DispatchedAmounts = append(g.DispatcherGenesis.DispatchedAmounts, extra.DispatcherGenesis.DispatchedAmounts...)
 			g.DispatcherGenesis.DispatchedCounts = append(g.DispatcherGenesis.DispatchedCounts, extra.DispatcherGenesis.DispatchedCounts...)
+		}
+		if cr.Chance(50) {
+			// a cluster of entries whose store keys are byte prefixes of one another: the last component of a
+			// key is written without a terminator (counterparties "1" / "10" / "100", denominations "uusd" / "uusdc")
+			src := genCCID(cr)
+			dp := rng.Pick(cr, []core.ProtocolID{2, 3})
+			for _, dc := range []string{"1", "10", "100", "2", "20"} {
+				if cr.Chance(70) {
+					g.DispatcherGenesis.DispatchedCounts = append(g.DispatcherGenesis.DispatchedCounts, dispatchertypes.DispatchCountEntry{SourceId: src,
+						DestinationId: &core.CrossChainID{ProtocolId: dp, CounterpartyId: dc}, Count: uint64(1 + cr.Intn(9))})
+				}
+			}
+			dst := &core.CrossChainID{ProtocolId: dp, CounterpartyId: rng.Pick(cr, []string{"1", "10"})}
+			for _, dn := range []string{"uusd", "uusdc", "uusdcx", "uusdn"} {
+				if cr.Chance(70) {
+					g.DispatcherGenesis.DispatchedAmounts = append(g.DispatcherGenesis.DispatchedAmounts, dispatchertypes.DispatchedAmountEntry{SourceId: src, DestinationId: dst, Denom: dn,
+						AmountDispatched: dispatchertypes.AmountDispatched{Incoming: math.NewInt(int64(1 + cr.Intn(1000))), Outgoing: math.NewInt(int64(cr.Intn(1000)))}})
+				}
+			}
 		}
 		g.ForwarderGenesis.PausedProtocolIds, g.ForwarderGenesis.PausedCrossChainIds, g.ExecutorGenesis.PausedActionIds = nil, nil, nil
 		bz, err := cdc.MarshalJSON(g)
